@@ -98,6 +98,7 @@ def run(ctx):
     o3_o6(ctx, F, roles)
     o4(ctx, F)
     o5(ctx, F)
+    o6b(ctx, F)
     o7(ctx, F)
 
 
@@ -390,3 +391,25 @@ def o7(ctx, F):
     # list the panic-propagation edges (lock().unwrap(), join().unwrap()) for the record
     ctx.note("panic-propagation edges: every lock().unwrap()/join().unwrap() site panics only if the search thread panicked; "
              "those panics are the obligations of C08/C13/C15 (%d lock sites)" % len(sites))
+
+
+def o6b(ctx, F):
+    """position / go / show are refused while a search runs (the search owns the game and the table)."""
+    fn = F.fn(TALK)
+    body = fn["hir"]["body"]
+    sym = hir.Sym(hir.Env(fn["hir"], F), F)
+    for cmd, callee in (("position", "uci::command_position"), ("go", "uci::command_go"), ("show", "uci::command_show")):
+        sites = hir.calls(body, callee)
+        ok = len(sites) == 1
+        found = None
+        if ok:
+            c = sites[0][0]
+            g = hir.guards_of(c, body, sym) or []
+            idx = [i for i, x in enumerate(g) if x[0] == "arm" and isinstance(x[2], tuple) and (x[2] == ("lit", cmd) or (x[2][0] == "or" and ("lit", cmd) in x[2]))]
+            inner = [(hir.fmt(x[1], 120), x[2]) for x in g[idx[0] + 1:] if x[0] == "if"] if idx else None
+            found = inner
+            ok = inner is not None and ("<bool>::load(search_is_running, Ordering::Relaxed)", False) in [(t.replace("std::sync::atomic::Atomic::", ""), p) for t, p in inner]
+        ctx.check("C14.O6", "refused-while-searching:%s" % cmd, ok, fn=TALK, file=fn["file"],
+                  what="`%s` must be refused while a search is running (a second search / a position change under the running search "
+                       "breaks the one-bestmove-per-go pairing)" % cmd, expected="only in the else-branch of `if search_is_running.load()`",
+                  found=found)
